@@ -738,3 +738,119 @@ func NonZeroLeaves(v reflect.Value) (leaves int, container bool) {
 }
 
 var _ = durationType
+
+// ---------------------------------------------------------------------------
+// deep copy with rebuilt maps
+
+// CopyReordered returns a deep copy of v in which every map is rebuilt by inserting its keys in ascending (desc=false)
+// or descending (desc=true) order of their printed form, so that two copies hold equal content in maps that were
+// filled in different insertion orders. Locks, channels and functions are left zero. v may be any value; pass
+// reflect.ValueOf(ptr) to copy what a pointer refers to (the result is then a new pointer).
+func CopyReordered(v reflect.Value, desc bool) reflect.Value {
+	return copyRe(v, desc, map[uintptr]reflect.Value{}, 0)
+}
+
+func copyRe(v reflect.Value, desc bool, seen map[uintptr]reflect.Value, depth int) reflect.Value {
+	tp := v.Type()
+	out := reflect.New(tp).Elem()
+	if Opaque(tp) || depth > 60 {
+		return out
+	}
+	switch tp.Kind() {
+	case reflect.Ptr:
+		if v.IsNil() || Opaque(tp.Elem()) {
+			return out
+		}
+		if prev, ok := seen[v.Pointer()]; ok {
+			return prev
+		}
+		np := reflect.New(tp.Elem())
+		seen[v.Pointer()] = np
+		copyInto(np.Elem(), v.Elem(), desc, seen, depth+1)
+		return np
+	default:
+		copyInto(out, v, desc, seen, depth)
+		return out
+	}
+}
+
+func copyInto(dst, src reflect.Value, desc bool, seen map[uintptr]reflect.Value, depth int) {
+	tp := src.Type()
+	if Opaque(tp) {
+		return
+	}
+	if tp == timeType {
+		dst.Set(readable(src))
+		return
+	}
+	switch tp.Kind() {
+	case reflect.Struct:
+		for i := 0; i < tp.NumField(); i++ {
+			if Opaque(tp.Field(i).Type) {
+				continue
+			}
+			df := Access(dst.Field(i))
+			if !df.CanSet() {
+				continue
+			}
+			copyInto(df, src.Field(i), desc, seen, depth+1)
+		}
+	case reflect.Slice:
+		if src.IsNil() {
+			return
+		}
+		ns := reflect.MakeSlice(tp, src.Len(), src.Len())
+		for i := 0; i < src.Len(); i++ {
+			copyInto(ns.Index(i), src.Index(i), desc, seen, depth+1)
+		}
+		dst.Set(ns)
+	case reflect.Array:
+		for i := 0; i < src.Len(); i++ {
+			copyInto(dst.Index(i), src.Index(i), desc, seen, depth+1)
+		}
+	case reflect.Map:
+		if src.IsNil() {
+			return
+		}
+		keys := src.MapKeys()
+		sort.Slice(keys, func(i, j int) bool {
+			a, b := fmt.Sprint(keys[i]), fmt.Sprint(keys[j])
+			if desc {
+				return a > b
+			}
+			return a < b
+		})
+		nm := reflect.MakeMapWithSize(tp, len(keys))
+		for _, k := range keys {
+			nk := reflect.New(tp.Key()).Elem()
+			copyInto(nk, k, desc, seen, depth+1)
+			ne := reflect.New(tp.Elem()).Elem()
+			copyInto(ne, src.MapIndex(k), desc, seen, depth+1)
+			nm.SetMapIndex(nk, ne)
+		}
+		dst.Set(nm)
+	case reflect.Ptr:
+		if src.IsNil() {
+			return
+		}
+		dst.Set(copyRe(src, desc, seen, depth+1))
+	case reflect.Interface:
+		if src.IsNil() {
+			return
+		}
+		e := src.Elem()
+		dst.Set(copyRe(e, desc, seen, depth+1))
+	case reflect.Bool:
+		dst.SetBool(src.Bool())
+	case reflect.Int, reflect.Int8, reflect.Int16, reflect.Int32, reflect.Int64:
+		dst.SetInt(src.Int())
+	case reflect.Uint, reflect.Uint8, reflect.Uint16, reflect.Uint32, reflect.Uint64, reflect.Uintptr:
+		dst.SetUint(src.Uint())
+	case reflect.Float32, reflect.Float64:
+		dst.SetFloat(src.Float())
+	case reflect.Complex64, reflect.Complex128:
+		dst.SetComplex(src.Complex())
+	case reflect.String:
+		dst.SetString(src.String())
+	}
+}
